@@ -20,10 +20,12 @@ def glob_of(g):
         return "/".join(g["arg"]) + "/**"
     if g["form"] == "name":
         return "**/" + g["arg"]
+    if g["form"] == "exactdir":
+        return "/".join(g["arg"])
     return path_of(g["arg"])
 
 
-TREE = ["f.py", "g.rs", "a/f.py", "b/f.py", "b/b/g.py", "a/b/f.rs", "src/m.py", "src/x y/n.rs", "gen/f.py", ".hid/h.py", "hid/h.py", "src/ig.py"]
+TREE = ["f.py", "g.rs", "a/f.py", "b/f.py", "b/b/g.py", "a/b/f.rs", "src/m.py", "src/x y/n.rs", "gen/f.py", ".hid/h.py", "hid/h.py", "src/ig.py", "pkg.py/inner.rs"]
 CWDS = ["", "a", "src/x y", "b/b", "gen"]
 
 
